@@ -7,6 +7,7 @@ import (
 	"fmt"
 	"reflect"
 	"sort"
+	"strconv"
 	"strings"
 	"testing"
 	"time"
@@ -453,6 +454,12 @@ func c15Client(m *Model, v *Verdict, rng *RNG) {
 			if rng.Intn(3) == 0 {
 				c.t[3] = 0
 			}
+			// a service ticket whose end time has passed and which cannot be renewed is still a credential of the
+			// cache: the client holds it (and serves nothing for it) - never the TGT, which the client needs
+			if !conf && len(sname) > 0 && sname[0] != "krbtgt" && rng.Intn(4) == 0 {
+				c.t[2] = uint32(now.Add(-time.Minute - k*time.Minute).Unix())
+				c.t[3] = uint32(rng.Pick(0, int(now.Add(-time.Minute-k*time.Second).Unix())))
+			}
 			if conf {
 				c.server = ccPrinc{realm: []byte("X-CACHECONF:"), comps: [][]byte{[]byte("krb5_ccache_conf_data"), []byte("pa_type")}}
 				switch rng.Intn(3) {
@@ -508,6 +515,9 @@ func c15Client(m *Model, v *Verdict, rng *RNG) {
 				v.Violate("failing-input", "c15:client-new-other-default-realm", "NewFromCCache fails when the configuration's default realm is not the realm of the cache's principal: "+errO.Error(), map[string]string{"file": X(file)})
 			} else {
 				for spn, c := range last0(mdl.creds) {
+					if int64(c.t[2]) < now.Unix() {
+						continue // ended: held, not served (checked below through the client's own report)
+					}
 					tkt, key, ok := clO.GetCachedTicket(spn)
 					tb, _ := tkt.Marshal()
 					if !ok || string(tb) != string(c.ticket) || string(key.KeyValue) != string(c.key) {
@@ -531,6 +541,12 @@ func c15Client(m *Model, v *Verdict, rng *RNG) {
 			last[strings.Join(parts, "/")] = c
 		}
 		for spn, c := range last {
+			if int64(c.t[2]) < now.Unix() {
+				if _, _, ok := cl.GetCachedTicket(spn); ok {
+					v.Violate("failing-input", "c15:client-serves-ended", "the client serves a ticket whose end time has passed and which is not renewable", map[string]string{"spn": spn, "file": X(file)})
+				}
+				continue
+			}
 			tkt, key, ok := cl.GetCachedTicket(spn)
 			tb, _ := tkt.Marshal()
 			if !ok || string(tb) != string(c.ticket) || string(key.KeyValue) != string(c.key) || key.KeyType != int32(c.kt) {
@@ -551,17 +567,46 @@ func c15Client(m *Model, v *Verdict, rng *RNG) {
 				// the whole of what the client holds, against the model of NewFromCCache (theorem `client_holds_last`)
 				var items []string
 				for _, h := range held {
+					if h.EndTime.Unix() < now.Unix() {
+						// ended (and not renewable, as generated): GetCachedTicket serves nothing, so the entry is
+						// compared by its presence and its times; the model's item is reduced the same way below
+						items = append(items, fmt.Sprintf("%s:::%d:%d:%d:%d:", XS(h.SPN), h.AuthTime.Unix(), h.StartTime.Unix(), h.EndTime.Unix(), h.RenewTill.Unix()))
+						continue
+					}
 					tkt, key, _ := cl.GetCachedTicket(h.SPN)
 					tb, _ := tkt.Marshal()
-					if h.EndTime.Before(time.Now()) {
-						continue // (GetCachedTicket would try to renew: no such entries are generated)
-					}
 					items = append(items, fmt.Sprintf("%s:%d:%s:%d:%d:%d:%d:%s", XS(h.SPN), key.KeyType, X(key.KeyValue), h.AuthTime.Unix(), h.StartTime.Unix(), h.EndTime.Unix(), h.RenewTill.Unix(), X(tb)))
 				}
 				sort.Strings(items)
 				goLine := strings.TrimRight("ok "+strings.Join(items, " "), " ")
-				if mo := strings.TrimRight(m.Ask("cc.client 1 "+X(file)), " "); mo != goLine {
+				mo := strings.TrimRight(m.Ask("cc.client 1 "+X(file)), " ")
+				if strings.HasPrefix(mo, "ok ") {
+					mi := strings.Fields(mo[3:])
+					for k, it := range mi {
+						f := strings.Split(it, ":")
+						if len(f) == 8 {
+							if end, err := strconv.ParseInt(f[5], 10, 64); err == nil && end < now.Unix() {
+								f[1], f[2], f[7] = "", "", ""
+								mi[k] = strings.Join(f, ":")
+							}
+						}
+					}
+					sort.Strings(mi)
+					mo = strings.TrimRight("ok "+strings.Join(mi, " "), " ")
+				}
+				if mo != goLine {
 					v.Violate("correspondence", "c15:client-model", "what a client built from the cache holds differs from the model of NewFromCCache", map[string]string{"file": X(file), "go": cut(goLine, 2000), "model": cut(mo, 2000)})
+				}
+				// every credential written (the last one per SPN) is held, whether or not its end time has passed
+				heldSPN := map[string]bool{}
+				for _, h := range held {
+					heldSPN[h.SPN] = true
+				}
+				for spn := range last {
+					if !heldSPN[spn] {
+						v.Violate("failing-input", "c15:client-holds-all", "a client built from the cache does not hold a credential the cache file contains", map[string]string{"spn": spn, "file": X(file)})
+						break
+					}
 				}
 				for _, h := range held {
 					c, ok := last[h.SPN]
